@@ -49,6 +49,12 @@ func storeVal(v int) any {
 	switch {
 	case v == 0:
 		return nil
+	case v == 120:
+		return (*int)(nil) // typed nils are values like any other: the store hands them back as they are
+	case v == 121:
+		return map[string]any(nil)
+	case v == 122:
+		return (func())(nil)
 	case v == 103:
 		return 0.0
 	case v == 108:
@@ -87,7 +93,18 @@ func storeValTok(x any) int {
 				return v
 			}
 		}
+	case *int:
+		if t == nil {
+			return 120
+		}
+	case func():
+		if t == nil {
+			return 122
+		}
 	case map[string]any:
+		if t == nil {
+			return 121
+		}
 		if v, ok := t["t"].(int); ok && len(t) == 1 {
 			return v
 		}
@@ -386,7 +403,7 @@ func randStoreOp(r *rand.Rand, nKeys int) storeOp {
 
 // value tokens of all kinds; the uncomparable ones and the two float zeroes repeat often enough for a key to be
 // overwritten with a value of the kind it already holds
-var richToks = []int{100, 101, 102, 103, 108, 104, 105, 106, 107, 103, 108, 110, 111, 104, 109, 114}
+var richToks = []int{100, 101, 102, 103, 108, 104, 105, 106, 107, 103, 108, 110, 111, 104, 109, 114, 120, 121, 122}
 
 func randStoreValTok(r *rand.Rand) int {
 	if r.Intn(3) == 0 {
@@ -635,6 +652,12 @@ func init() {
 				for g, l := range runStoreChurn(r, owners, 1200, 40000, resident) {
 					id++
 					o.WriteScenario(id, "storeowner", "gen", map[string]any{"run": i + 1, "owner": g + 1, "owners": owners, "resident": resident}, nil, l)
+				}
+				if i%3 == 0 {
+					// fill-and-clear cycles of one owner while another goroutine keeps writing
+					id++
+					o.WriteScenario(id, "storeowner", "gen:clear", map[string]any{"run": i + 1, "owner": 0, "owners": 2, "resident": 1500}, nil,
+						runStoreClearStress(r, 150, 1500))
 				}
 			}
 			return
